@@ -26,6 +26,15 @@ func loadReplayIndex() map[string]replayEntry {
 		return m
 	}
 	json.Unmarshal(data, &m)
+	more, _ := filepath.Glob(filepath.Join(verifDir, "replay", "index.d", "*.json"))
+	for _, f := range more {
+		part := map[string]replayEntry{}
+		if d, err := os.ReadFile(f); err == nil && json.Unmarshal(d, &part) == nil {
+			for k, v := range part {
+				m[k] = v
+			}
+		}
+	}
 	return m
 }
 
